@@ -62,5 +62,32 @@ CLAIMED = {
        'inputs; builders end to end over 6 sigfield/flag sets.',
   design_ref='DESIGN.md 4/C17', technique=T_ENUM.format('(seed, message, tweak) products and all bit positions', 'reference Ed25519 arithmetic'),
   note='t = 0 mod L outside the domain. Trusted base ref/refed.py.'),
+ 'C11': dict(
+  text='Abstract programs x spelling vectors, both enumerated completely: every non-block instruction x operand boundary values x every '
+       'documented name spelling / case / value style, PUSH sugar sizes, all NOP codes, every control program up to the node bound x all '
+       'terminator/hoist combinations x a comment at every symbol gap x whitespace kinds, sugar forms, and un-encodable sources; accepted '
+       'sources must compile to the reference assembler\'s bytes, un-encodable ones must raise.',
+  design_ref='DESIGN.md 4/C11', technique=T_ENUM.format('programs x spellings', 'a reference assembler'),
+  note='Trusted base: ref/refasm.py (from language_spec.md / docs.md). Rejected-but-valid sources are only counted (no claim in the statement).'),
+ 'C12': dict(
+  text='Termination: every byte string of length <=2 (quick; <=3 thorough = 16.8M) plus the structured length family (declared length x '
+       'payload x nesting) decided by progress counting on Tape.read; round trip compile(decompile(b)) == b and listing-vs-reference '
+       'disassembly for every enumerated compiler output, every builder output over a small alphabet and all repository vectors.',
+  design_ref='DESIGN.md 4/C12', technique=T_ENUM.format('byte strings and compiler/builder outputs', 'progress monitors and a reference disassembler'),
+  note='Horizon 4*len+16 tape reads; "random strings up to 70 KiB" replaced by the complete structured family.'),
+ 'C19': dict(
+  text='Explicit-state BFS over the real registry API: plugin, contract+interface and alias subsystems each to a fixpoint (256 / 144 / 9 '
+       'states, all histories of any length), and all 44 operations (registry calls + run/compile/assemble observers) in every order up to '
+       'length 4/5; state = snapshot of all process-global mutable state including every mutable default argument; set-model refinement on '
+       'every edge, probes in every state, observers must be self-loops with history-independent results.',
+  design_ref='DESIGN.md 4/C19', technique='explicit-state model checking (BFS with canonical state hashing) of the real registry API against a set model',
+  engine='E2-explorer',
+  note='Cross-subsystem interference only to the product depth bound.'),
+ 'C20': dict(
+  text='All 164 NOP codes x 256 count bytes x 9 stack depths as single steps; compile/decompile of every (code, count); soft forks from a '
+       'family of 5 predicate ops installed with add_soft_fork at 7 (quick) / 164 free codes x every control program containing the forked '
+       'instruction x 4 witnesses, plain verdict computed on the same bytes before installation.',
+  design_ref='DESIGN.md 4/C20', technique=T_ENUM.format('(code, count, depth) grids and fork-op x program products', 'the NOP semantics and an upgraded/plain differential'),
+  note='Registries are restored in place after each fork case; fork counts 0,1,2.'),
 }
 NOT_YET = {p: 'check not built yet in this session (planned, see DESIGN.md section 4)' for p in ALL if p not in CLAIMED}
